@@ -409,6 +409,10 @@ def gen_emulations(repo: str) -> str:
     out.append("def substringStartShift : Int := 0")
     out.append("")
 
+    # ---- util.soundex: the pure-Python function DuckDBSession registers as SOUNDEX
+    out.append(_gen_soundex(repo))
+    out.append("")
+
     # ---- dispatch table: (function, engine) -> alternative | inline | unsupported     (absent = the default body)
     rows_d: t.List[t.Tuple[str, str, str]] = []
     for n in fn.body:
@@ -461,6 +465,83 @@ def gen_emulations(repo: str) -> str:
     out.append("")
     out.append("end Sqlframe.Gen.Emul")
     return "\n".join(out) + "\n"
+
+
+def _eval_letter_cond(node: ast.expr, letter: str, ob: str) -> bool:
+    """evaluate a boolean expression over the variable `letter` and string constants"""
+    if isinstance(node, ast.BoolOp):
+        vals = [_eval_letter_cond(v, letter, ob) for v in node.values]
+        return all(vals) if isinstance(node.op, ast.And) else any(vals)
+    if isinstance(node, ast.UnaryOp) and isinstance(node.op, ast.Not):
+        return not _eval_letter_cond(node.operand, letter, ob)
+    if isinstance(node, ast.Compare) and len(node.ops) == 1 and isinstance(node.left, ast.Name) and node.left.id == "letter":
+        c = node.comparators[0]
+        if isinstance(c, ast.Constant) and isinstance(c.value, str):
+            op = node.ops[0]
+            if isinstance(op, ast.NotEq):
+                return letter != c.value
+            if isinstance(op, ast.Eq):
+                return letter == c.value
+            if isinstance(op, ast.NotIn):
+                return letter not in c.value
+            if isinstance(op, ast.In):
+                return letter in c.value
+    raise Untranslatable(ob, f"unsupported condition {ast.unparse(node)!r}")
+
+
+def _gen_soundex(repo: str) -> str:
+    ob = "Gen.Emulations.soundex"
+    f = find_func(parse(repo, "sqlframe/base/util.py").body, "soundex")
+    src = ast.unparse(f)
+    for needle in ("if not s:\n        return ''", "s = unicodedata.normalize('NFKD', s)", "s = s.upper()", "result = [s[0]]", "count = 1", "for letter in s[1:]:", "if sub != last:", "result.append(sub)", "count += 1", "last = sub", "return ''.join(result)"):
+        if needle not in src:
+            raise Untranslatable(ob, f"statement {needle!r} not found")
+    table = None
+    for st in f.body:
+        if isinstance(st, ast.Assign) and ast.unparse(st.targets[0]) == "replacements":
+            try:
+                table = ast.literal_eval(st.value)
+            except Exception:
+                raise Untranslatable(ob, "replacements is not a literal")
+    if not table or not all(isinstance(r, tuple) and len(r) == 2 and isinstance(r[0], str) and isinstance(r[1], str) and len(r[1]) == 1 for r in table):
+        raise Untranslatable(ob, "replacements is not a tuple of (letters, digit) pairs")
+    loops = [st for st in f.body if isinstance(st, ast.For) and ast.unparse(st.target) == "letter"]
+    if len(loops) != 1:
+        raise Untranslatable(ob, "main loop not found")
+    loop = loops[0]
+    inner = [st for st in loop.body if isinstance(st, ast.For)]
+    brk = [st for st in loop.body if isinstance(st, ast.If)]
+    if len(inner) != 1 or not inner[0].orelse or len(brk) != 1:
+        raise Untranslatable(ob, "loop body is not `for lset, sub …: … else: …` followed by `if count == N: break`")
+    els = inner[0].orelse
+    if not (len(els) == 1 and isinstance(els[0], ast.If) and not els[0].orelse and len(els[0].body) == 1 and ast.unparse(els[0].body[0]) == "last = None"):
+        raise Untranslatable(ob, "else branch is not `if <cond over letter>: last = None`")
+    cond = els[0].test
+    # the letters for which the condition is FALSE leave `last` alone (transparent); every other uncoded character resets it
+    transparent = [chr(c) for c in range(128) if not _eval_letter_cond(cond, chr(c), ob)]
+    m = re.fullmatch(r"count == (\d+)", ast.unparse(brk[0].test))
+    if not m or ast.unparse(brk[0].body[0]) != "break":
+        raise Untranslatable(ob, "`if count == N: break` not found")
+    n = int(m.group(1))
+    m2 = re.search(r"result \+= '(.)' \* \((\d+) - count\)", src)
+    if not m2 or int(m2.group(2)) != n:
+        raise Untranslatable(ob, "padding `result += '0' * (N - count)` not found or N differs")
+    # first character: `last` is its code
+    first = [st for st in f.body if isinstance(st, ast.For) and ast.unparse(st.target) == "(lset, sub)"]
+    if len(first) != 1 or "if s[0] in lset:" not in ast.unparse(first[0]) or ast.unparse(first[0].orelse[0]) != "last = None":
+        raise Untranslatable(ob, "code of the first character not recognised")
+    # DuckDBSession registers it as SOUNDEX
+    sess = ast.unparse(parse(repo, "sqlframe/duckdb/session.py"))
+    registered = "conn.create_function('SOUNDEX', lambda x: soundex(x)" in sess and "from sqlframe.base.util import soundex" in sess
+    out = []
+    out.append("/-- `sqlframe.base.util.soundex` (registered by DuckDBSession as SOUNDEX): (code points of the letters, code point of the digit) -/")
+    out.append("def soundexTable : List (List Nat × Nat) := [" + ", ".join("([" + ", ".join(str(ord(ch)) for ch in letters) + f"], {ord(d)})" for letters, d in table) + "]")
+    out.append("/-- uncoded characters that leave `last` alone (the characters for which the `else` condition is false) -/")
+    out.append("def soundexTransparent : List Nat := [" + ", ".join(str(ord(c)) for c in transparent) + "]")
+    out.append(f"def soundexLen : Nat := {n}")
+    out.append(f"def soundexPad : Nat := {ord(m2.group(1))}")
+    out.append(f"def duckSoundexIsUtilSoundex : Bool := {'true' if registered else 'false'}")
+    return "\n".join(out)
 
 
 def kw_of_method(f: ast.FunctionDef, node_name: str) -> t.Dict[str, str]:
